@@ -79,6 +79,29 @@ def file_task(task):
                             r["chrom"] = "chr%d" % (1 + (int(r["mutation_id"][1:]) * 7) % 22)
                         inputs.write_table(rows, in_file)
                 crow, assign = inputs.make_clusters(rng, rows, k, outlier_prob_col=cl_probs)
+                listed_extra = {}
+                if sel % 5 in (1, 3) and not (assign_loss and chrom):
+                    # the cluster file also lists mutations the loader does not keep (absent from the data file / major
+                    # copy number zero in a sample): the cluster's size is what the cluster file says, its grid the sum
+                    # over the members that were loaded
+                    cid0 = crow[int(rng.integers(0, len(crow)))]["cluster_id"]
+                    tmpl = [r for r in crow if r["cluster_id"] == cid0][0]
+                    for s_ in sids:
+                        crow.append(dict(tmpl, mutation_id="zz_absent", sample_id=s_))
+                    listed_extra[cid0] = 1
+                    if sel % 5 == 3:
+                        for si, s_ in enumerate(sids):
+                            r0 = random_row(rng, "zz_lost", s_)
+                            if si == 0:
+                                r0["major_cn"], r0["minor_cn"] = 0, 0
+                            if chrom:
+                                r0["chrom"] = "chr1"
+                            rows.append(r0)
+                            crow.append(dict(tmpl, mutation_id="zz_lost", sample_id=s_))
+                        listed_extra[cid0] = 2
+                        inputs.write_table(rows, in_file)
+                        rows = [r for r in rows if r["mutation_id"] != "zz_lost"]
+                    part.count("cluster_files_listing_unloaded_mutations")
                 cluster_file = os.path.join(tmp, "cl.tsv")
                 inputs.write_table(crow, cluster_file)
             case = {"seed": task["seed"], "shard": task["shard"], "case": c, "n_mut": n_mut, "D": D, "G": G,
@@ -149,7 +172,7 @@ def file_task(task):
                         part.violation("clustered data point is not the sum of its members' grids",
                                        dict(case, cluster=cid, members=members[cid], max_dev=dev))
                         break
-                    size = len(members[cid])
+                    size = len(members[cid]) + listed_extra.get(cid, 0)
                     p = op
                     allowed = None
                     if assign_loss:
@@ -240,6 +263,7 @@ def run(ctx):
                 "grid cell against the reference mixture; normalisation over all alternate counts for depth<=300; "
                 "distinct = generated file / copy-number state")
     ctx.assumptions = ["tolerance 1e-6 + 1e-10*depth absolute in log space (lgamma cancellation)",
+                       "cluster size = number of mutations the cluster file lists for the cluster (also those the loader drops)",
                        "scipy.stats.binom / betabinom log-pmf as reference primitives"]
     shards = 16
     tasks = [{"seed": ctx.seed, "shard": i, "count": 14 if quick else 800} for i in range(shards)]
